@@ -1,5 +1,6 @@
 import MetricsVerif.Driver.Util
 import MetricsVerif.Model.Reservoir
+import MetricsVerif.Model.ReservoirConc
 
 /-!
 Line protocol of component `reservoir`:
@@ -10,6 +11,13 @@ Line protocol of component `reservoir`:
                                values before dropping the `Drain`
 * `empty`                    → `1` | `0`
 * `enum <cap> <n>`           → `total=<#choice vectors> counts=<per-position retention counts>` (from `vectors`/`retained`)
+* `consumef <k|~>`           → as `consume`, the closure leaks the `Drain` (`mem::forget`): no count reset
+* `crun <cap> <progs> <sched>` → concurrent run of `Model/ReservoirConc` on a fresh reservoir. `progs`: threads joined
+                               by `/`, ops by `,` (`p<bits>:<raw>` push, `c` consume, `f` consume leaking the drain, `.`
+                               empty program); `sched`: granted thread ids joined by `.`.  Answer:
+                               `trace=<one letter per grant: s selected, c claimed, r reading, o between ops, f finished, x did not move>
+                                asked=<per thread, `/`-joined: what each push asked the generator for>
+                                drains=<tid:len:rate:vals(+-joined)> flush=<two sequential drains after the run>`
 -/
 namespace MetricsVerif.Driver.Reservoir
 open MetricsVerif.Driver MetricsVerif.Reservoir
@@ -25,6 +33,45 @@ def rateBits (d : DrainOut) : Nat :=
   let (n, m) := d.rate
   (Float.ofNat n / Float.ofNat m).toBits.toNat
 
+def drainTok (d : DrainOut) : String :=
+  let vals := if d.values.isEmpty then "-" else "+".intercalate (d.values.map hex16)
+  s!"{d.len}:{hex16 (rateBits d)}:{vals}"
+
+def copTok (s : String) : Option COp :=
+  if s == "c" then some .consume
+  else if s == "f" then some .consumeForget
+  else match s.toList with
+    | 'p' :: rest =>
+      match (String.ofList rest).splitOn ":" with
+      | [v, c] => do pure (.push (← bitsTok v) (← c.toNat?))
+      | _ => none
+    | _ => none
+
+def labelOf (before after : Sys) (t : Nat) : Char :=
+  if before == after then 'x' else
+  match after.threads[t]? with
+  | none => 'x'
+  | some th =>
+    if th.prog.isEmpty then 'f' else
+    match th.pc with
+    | .idle => 'o'
+    | .selected _ => 's'
+    | .claimed _ _ => 'c'
+    | .reading _ _ _ _ => 'r'
+
+def crunAnswer (cap : Nat) (progs : List (List COp)) (sched : List Nat) : String :=
+  let (s, labels) := sched.foldl (fun (acc : Sys × List Char) t =>
+    let s' := cstep acc.1 t
+    (s', labelOf acc.1 s' t :: acc.2)) (Sys.init cap progs, [])
+  let asked := "/".intercalate (s.threads.map (fun th =>
+    showList (fun (o : Option Nat) => match o with | none => "~" | some u => toString u) th.asked))
+  let drains := showList (fun (td : Nat × DrainOut) => s!"{td.1}:{drainTok td.2}") s.drains
+  if !s.finished || s.locked then s!"trace={String.ofList labels.reverse} asked={asked} drains={drains} unfinished"
+  else
+    let (a1, d1) := s.asr.consume
+    let (_, d2) := a1.consume
+    s!"trace={String.ofList labels.reverse} asked={asked} drains={drains} flush={drainTok d1},{drainTok d2}"
+
 def handle (st : Option ASR) (args : List String) : Option (Option ASR × String) :=
   match args with
   | ["new", cap] => do pure (some (ASR.new (← cap.toNat?)), "ok")
@@ -35,6 +82,11 @@ def handle (st : Option ASR) (args : List String) : Option (Option ASR × String
     let vs := vectors cap (n - cap)
     let counts := (List.range n).map (fun i => retainCount cap (n - cap) i)
     pure (st, s!"total={vs.length} counts={showList toString counts}")
+  | ["crun", cap, progs, sched] => do
+    let cap ← cap.toNat?
+    let progs ← (progs.splitOn "/").mapM (listTok copTok)
+    let sched ← if sched == "-" then some [] else (sched.splitOn ".").mapM String.toNat?
+    pure (st, crunAnswer cap progs sched)
   | op :: rest => do
     let a ← st
     match op, rest with
@@ -53,6 +105,14 @@ def handle (st : Option ASR) (args : List String) : Option (Option ASR × String
     | "consume", [k] => do
       let k ← optTok String.toNat? k
       let (a', d) := a.consume
+      let vals := match k with
+        | none => d.values
+        | some k => d.values.take k
+      pure (some a', s!"len={d.len} rate={hex16 (rateBits d)} vals={showList hex16 vals}")
+    | "consumef", [k] => do
+      let k ← optTok String.toNat? k
+      -- the closure leaks the Drain: the side is swapped, the count of the retired side is NOT reset
+      let (a', d) := a.consumeForget
       let vals := match k with
         | none => d.values
         | some k => d.values.take k
